@@ -196,6 +196,32 @@ def gen_cycle(rng: Rng) -> dict:
     return cls_case(cls, up, down, ops)
 
 
+def gen_sessions(rng: Rng) -> dict:
+    """item 2, the one piece of per-tick work that continues while a node is not ON: `UserSessionManager.pre_timestep` times
+    idle sessions out whatever the power state.  Log users in (locally, and remotely from the peer), switch the node off and on
+    around it, tick past the time-out; the rig's own reference (time-out at last_active + timeout, power never consulted)
+    must predict what the implementation does, and the notification a remote time-out sends must stop at the interface."""
+    case = pair_case(rng.choice([0, 1, 2]), rng.choice([0, 1, 3]), 1, 1, [], (rng.choice(["computer", "server"]), "computer"))
+    case["session_timeout"] = rng.choice([2, 3, 5])
+    ops = []
+    for _ in range(rng.range(8, 22)):
+        r = rng.below(12)
+        if r < 5:
+            ops.append({"op": "tick"})
+        elif r < 7:
+            ops.append({"op": "login", "node": 0, "remote": rng.chance(1, 2)})
+        elif r < 9:
+            ops.append({"op": "req", "node": 0, "key": "shutdown"})
+        elif r < 10:
+            ops.append({"op": "req", "node": 0, "key": "startup"})
+        elif r < 11:
+            ops.append({"op": "req", "node": 0, "key": "reset"})
+        else:
+            ops.append({"op": "ping", "src": 1, "dst": 0})
+    case["ops"] = ops + [{"op": "tick"}] * (case["session_timeout"] + 2)
+    return case
+
+
 # ------------------------------------------------------------------------------------------------ the loader family
 def load_case(rng: Rng, max_ops: int) -> dict:
     """a scenario dictionary with one node of every class, each with a declared operating_state / durations / countdowns /
@@ -722,6 +748,14 @@ def run_case(case: dict) -> Tuple[List[str], List[str], List[str], Dict[str, int
                             oracle.append(f"application-running-while-OFF|{cls_of[i]}|{a.name} after {tag}")
         if case["kind"] == "load":
             invariants("loading")
+        # reference for user sessions: (node index) -> {"local": last_active or None, "remote": [last_active, ...]}
+        sess_ref = {i: {"local": None, "remote": []} for i in range(len(nodes))}
+        sess_now = {i: 0 for i in range(len(nodes))}   # UserSessionManager.current_timestep as the reference sees it
+        tmo = case.get("session_timeout")
+        if tmo:
+            for n in nodes:
+                n.user_session_manager.local_session_timeout_steps = tmo
+                n.user_session_manager.remote_session_timeout_steps = tmo
 
         for k, op in enumerate(case["ops"]):
             nb = len(probe.bad_frames)
@@ -730,6 +764,23 @@ def run_case(case: dict) -> Tuple[List[str], List[str], List[str], Dict[str, int
                 before = [n.operating_state for n in nodes]
                 clocks = [_clocks(n) for n in nodes]
                 sim.pre_timestep(t)
+                if tmo:   # the reference: a session idle for `tmo` steps ends at this pre_timestep, whatever the node's power state
+                    for i, n in enumerate(nodes):
+                        ref = sess_ref[i]
+                        sess_now[i] = t
+                        was = (ref["local"] is not None, len(ref["remote"]))
+                        if ref["local"] is not None and ref["local"] + tmo <= t:
+                            ref["local"] = None
+                        ref["remote"] = [x for x in ref["remote"] if not (x + tmo <= t)]
+                        usm = n.user_session_manager
+                        seen = (usm.local_session is not None, len(usm.remote_sessions))
+                        want = (ref["local"] is not None, len(ref["remote"]))
+                        if seen != want:
+                            oracle.append(f"session-timeout-differs-from-power-blind-reference|{cls_of[i]}|tick {t} {n.operating_state.name}: "
+                                          f"(local, #remote) seen {seen} expected {want}")
+                        if want != was:
+                            probe.frame_events[f"session-timed-out:{'ON' if before[i] == NodeOperatingState.ON else 'not-ON'}"] = \
+                                probe.frame_events.get(f"session-timed-out:{'ON' if before[i] == NodeOperatingState.ON else 'not-ON'}", 0) + 1
                 sim.apply_timestep(t)
                 t += 1
                 tr = traces()
@@ -798,6 +849,27 @@ def run_case(case: dict) -> Tuple[List[str], List[str], List[str], Dict[str, int
                     oracle.append(f"ping-succeeded-with-node-not-on|{cls_of[0]}|{op['name']} crossed {off}")
                 lines.append(f"pingpath {src_i} " + " ".join(f"{a}:{b}" for a, b in hops))
                 impl.append("1" if ok else "0")
+                traces()
+            elif kind == "login":   # straight at the user session manager (the `logon` request is a stub that always fails)
+                i = op["node"]
+                n = nodes[i]
+                usm = n.user_session_manager
+                on = n.operating_state == NodeOperatingState.ON
+                if op.get("remote"):
+                    peer_ip = nodes[1 - i].network_interface[1].ip_address
+                    had = len(usm.remote_sessions)
+                    sid = usm.remote_login("admin", "admin", peer_ip)
+                    if sid and len(usm.remote_sessions) > had:
+                        sess_ref[i]["remote"].append(sess_now[i])
+                else:
+                    fresh = usm.local_session is None
+                    sid = usm.local_login("admin", "admin")
+                    if sid and fresh:
+                        sess_ref[i]["local"] = sess_now[i]
+                if sid and not on:
+                    oracle.append(f"login-succeeded-while-not-on|{cls_of[i]}|{n.operating_state.name}")
+                probe.frame_events[f"login:{'ON' if on else 'not-ON'}:{'ok' if sid else 'refused'}"] = \
+                    probe.frame_events.get(f"login:{'ON' if on else 'not-ON'}:{'ok' if sid else 'refused'}", 0) + 1
                 traces()
             elif kind == "traffic":  # scenario scale: ping an address somewhere in the network; only the oracles look at it
                 try:
